@@ -212,6 +212,12 @@ class SimLoop(asyncio.SelectorEventLoop):
         box = {}
         def run():
             SIM.point("sub-before:%d" % n)
+            if desc[0] == "bash":
+                # what does the step find in its workspace when it really starts?
+                try:
+                    SIM.log("ws-state", n, desc[1], sorted(os.listdir(cwd or "."))[:50])
+                except OSError:
+                    SIM.log("ws-state", n, desc[1], None)
             e = dict(env) if env is not None else dict(os.environ)
             if fault is not None and desc[0] == "bash":
                 e["BASH_ENV"] = INJECT_SH
